@@ -71,7 +71,7 @@ def regressions():
         if f.get("status") != "fixed" or not f.get("replay") or not f.get("commit"):
             continue
         commit = f["commit"]
-        manual = f"{VERIF}/known/unfix/{commit}.diff"
+        manual = f"{VERIF}/{f['unfix_patch']}" if f.get("unfix_patch") else f"{VERIF}/known/unfix/{commit}.diff"
         if os.path.exists(manual):
             # later fixes touch the same lines: a hand-made patch re-introduces just this defect on HEAD
             rc, out = sh(f"git apply {manual}", cwd=REPO)
